@@ -14,9 +14,27 @@ def _write(workdir, name, obj):
     return p
 
 
+import os as _os
+CHUNK = int(_os.environ.get("VERIF_OBS_CHUNK", "400"))
+
+
 def observe(chk, module_rel, cfg_rel, batch: dict, name="obs", workers=1, timeout=1800):
     """Run an observer spec (Obs_Cxx.tla) over batch['traces'].
-    Returns {tid(1-based): (clause, l)}; every trace must get a verdict (total verdicts)."""
+    Returns {tid(1-based): (clause, l)}; every trace must get a verdict (total verdicts).
+    Large batches are split: one TLC run per CHUNK traces, a few side by side."""
+    n_all = len(batch["traces"])
+    if n_all > CHUNK:
+        from concurrent.futures import ThreadPoolExecutor
+        parts = [dict(batch, traces=batch["traces"][i:i + CHUNK]) for i in range(0, n_all, CHUNK)]
+        with ThreadPoolExecutor(max_workers=4) as ex:
+            outs = list(ex.map(lambda j: observe(chk, module_rel, cfg_rel, parts[j], name="%s_p%d" % (name, j),
+                                                 workers=max(1, min(workers, 4)), timeout=timeout), range(len(parts))))
+        merged, res = {}, None
+        for j, (o, r) in enumerate(outs):
+            for tid, v in o.items():
+                merged[j * CHUNK + tid] = v
+            res = r
+        return merged, res
     f = _write(chk.work, name, batch)
     res = tlc.run(SPECS / module_rel, SPECS / cfg_rel, workdir=chk.work, workers=workers,
                   env={"TRACE_FILE": str(f)}, deadlock=False, coverage=False, timeout=timeout)
